@@ -175,7 +175,9 @@ func (d *Decoder) decodeNALUs(pkt *rtp.Packet) ([][]byte, error) {
 				errSize, h264.MaxAccessUnitSize)
 		}
 
-		d.fragments = append(d.fragments, pkt.Payload[2:])
+		if len(pkt.Payload[2:]) != 0 { // a fragment without data is not retained
+			d.fragments = append(d.fragments, pkt.Payload[2:])
+		}
 		d.fragmentNextSeqNum++
 
 		if end != 1 {
